@@ -39,7 +39,8 @@ STRUCTS = {
     "BlockIter": {"lean": "BlockIter",
                   "fields": {"block": ("block", "bytes"), "restarts_off": ("restartsOff", "usize"), "offset": ("offset", "usize"),
                              "current_entry_offset": ("curEntryOff", "usize"), "current_restart_ix": ("curRestartIx", "usize"),
-                             "key": ("key", "bytes"), "val_offset": ("valOffset", "usize")}},
+                             "key": ("key", "bytes"), "val_offset": ("valOffset", "usize")},
+                  "cmp_field": "cmp"},
 }
 STRUCTS["BlockBuilder"] = {"lean": "BlockBuilder", "cmp_param": True,
                            "fields": {"buffer": ("buffer", "bytes"), "restarts": ("restarts", "natlist"), "last_key": ("lastKey", "bytes"),
@@ -57,6 +58,9 @@ TARGETS += [
     ("block.rs", _BI, "advance", "bi_advance", {}, "BlockIter"),
     ("block.rs", _BI, "seek_to_last", "bi_seek_to_last", {}, "BlockIter"),
     ("block.rs", _BI, "prev", "bi_prev", {}, "BlockIter"),
+    ("block.rs", _BI, "current", "bi_current", {}, "BlockIter"),
+    ("types.rs", r"pub\s+trait\s+SSIterator", "next", "bi_next", {}, "BlockIter"),
+    ("block.rs", _BI, "seek", "bi_seek", {}, "BlockIter"),
     ("block.rs", r"impl\s+Block\b", "is_well_formed", "block_is_well_formed", {}),
     ("block_builder.rs", r"impl\s+BlockBuilder", "entries", "bb_entries", {}, "BlockBuilder"),
     ("block_builder.rs", r"impl\s+BlockBuilder", "size_estimate", "bb_size_estimate", {}, "BlockBuilder"),
@@ -209,6 +213,11 @@ class P:
             return "bytes" if t == "u8" else ("natlist" if t in INTS else ("list", t))
         if v == "BlockContents":
             return "bytes"
+        if v == "Option":
+            self.expect("<")
+            t = self.ty()
+            self.expect(">")
+            return ("option", t)
         if v in INTS or v == "bool":
             return v
         if v == "Ordering":
@@ -222,6 +231,7 @@ class P:
         self.expect("(")
         params = []
         self.selfkind = None
+        self.outs = []
         while not self.at(")"):
             if self.eat("&"):
                 m = self.eat("mut")
@@ -242,6 +252,8 @@ class P:
             self.eat("mut")
             pn = self.next()[1]
             self.expect(":")
+            if self.at("&") and self.peek(1)[1] == "mut":
+                self.outs.append(pn)
             params.append((pn, self.ty()))
             self.eat(",")
         self.expect(")")
@@ -288,7 +300,25 @@ class P:
         if v == "while":
             self.next()
             if self.at("let"):
-                raise Untranslatable("while let")
+                # while let Some(pat) = e { body }   ==   loop { match e { Some(pat) => body, None => break } }
+                self.next()
+                self.expect("Some")
+                self.expect("(")
+                names, tup = [], False
+                if self.eat("("):
+                    tup = True
+                    while not self.at(")"):
+                        self.eat("mut")
+                        names.append(self.next()[1])
+                        self.eat(",")
+                    self.expect(")")
+                else:
+                    names.append(self.next()[1])
+                self.expect(")")
+                self.expect("=")
+                e = self.expr(nostruct=True)
+                body = self.block()
+                return ("while", ("bool", True), [("expr", ("matchopt", e, (names, tup), body, [("break",)]), False)])
             c = self.expr(nostruct=True)
             return ("while", c, self.block())
         if v == "loop":
@@ -594,6 +624,8 @@ class P:
 def lean_ty(t):
     if t in INTS:
         return "Nat"
+    if isinstance(t, tuple) and t[0] == "option":
+        return "Option " + par(lean_ty(t[1]))
     if isinstance(t, tuple) and t[0] == "tuple":
         return " × ".join(par(lean_ty(x)) if isinstance(x, tuple) else lean_ty(x) for x in t[1])
     if isinstance(t, str) and t.startswith("struct:"):
@@ -702,7 +734,7 @@ def always_leaves(stmts):
 
 
 class Emitter:
-    def __init__(self, fname, consts, selffields, known_fns, rettype, struct=None, selfkind=None):
+    def __init__(self, fname, consts, selffields, known_fns, rettype, struct=None, selfkind=None, outs=()):
         self.fname, self.consts, self.selffields, self.known = fname, consts, selffields, known_fns
         self.ret = rettype
         self.struct = struct            # name in STRUCTS when the method works on a model structure value
@@ -713,27 +745,38 @@ class Emitter:
         self.uses_fuel = False
         self.uses_cmp = False
         self.closures = {}
+        self.outs = list(outs)          # names of `&mut Vec<u8>` parameters: returned together with the value
 
     def fresh(self, p):
         self.n += 1
         return "%s%d" % (p, self.n)
 
     def wrap_ret(self, code):
-        """the function's full result for the Rust return value `code`"""
-        if not self.mutself:
-            return code
-        return "self_" if self.ret == "unit" else "(self_, %s)" % code
+        """the function's full result for the Rust return value `code`: the structure (for &mut self), the value, the
+        final contents of the `&mut` parameters"""
+        parts = []
+        if self.mutself:
+            parts.append("self_")
+        if self.ret != "unit" or (not parts and not self.outs):
+            parts.append(code)
+        parts += [self.lname(o, {}) for o in self.outs]
+        return parts[0] if len(parts) == 1 else "(" + ", ".join(parts) + ")"
 
     def full_ret_ty(self):
-        if not self.mutself:
-            return par(lean_ty(self.ret))
-        sl = STRUCTS[self.struct]["lean"]
-        return sl if self.ret == "unit" else "(%s × %s)" % (sl, par(lean_ty(self.ret)))
+        parts = []
+        if self.mutself:
+            parts.append(STRUCTS[self.struct]["lean"])
+        if self.ret != "unit" or (not parts and not self.outs):
+            parts.append(par(lean_ty(self.ret)))
+        parts += ["Bytes" for _ in self.outs]
+        return parts[0] if len(parts) == 1 else "(" + " × ".join(parts) + ")"
 
     def mut_call(self, e, env):
         """`self.m(args)` for a translated &mut self method: (lean action, rust return type)"""
         name, args = e[2], e[3]
-        lean, ptypes, ret, fuel, fields, skind, cstruct = self.known[name]
+        lean, ptypes, ret, fuel, fields, skind, cstruct = self.known[name][:7]
+        if self.known[name][8]:
+            raise Untranslatable("call of %s (it has &mut parameters) in this position" % name)
         if cstruct != self.struct or not self.mutself:
             raise Untranslatable("call of the &mut self method %s from a method that does not own the structure" % name)
         cs = []
@@ -744,7 +787,60 @@ class Emitter:
             cs.append(par(c))
         if fuel:
             self.uses_fuel = True
-        return "%s %s" % (lean, " ".join((["fuel"] if fuel else []) + ["self_"] + cs)), ret
+        if self.known[name][7]:
+            self.uses_cmp = True
+        return "%s %s" % (lean, " ".join((["fuel"] if fuel else []) + (["cmp"] if self.known[name][7] else []) + ["self_"] + cs)), ret
+
+    def is_out_call(self, e):
+        return isinstance(e, tuple) and e[0] == "mcall" and e[1] == ("var", "self") and e[2] in self.known and self.known[e[2]][8]
+
+    def out_call(self, e, env):
+        """(lean action, return type, [rust names of the variables bound to the &mut parameters])"""
+        name, args = e[2], e[3]
+        lean, ptypes, ret, fuel, fields, skind, cstruct = self.known[name][:7]
+        outs = self.known[name][8]
+        if skind == "mut" or cstruct != self.struct:
+            raise Untranslatable("call of %s: &mut self together with &mut parameters" % name)
+        cs, bound = [], []
+        for a, (pn, pt) in zip(args, ptypes):
+            if pn in outs:
+                if a[0] != "var" or a[1] not in env:
+                    raise Untranslatable("&mut argument that is not a local variable")
+                bound.append(a[1])
+                cs.append(env[a[1]][0])
+            else:
+                c, t = self.expr(a, env, pt)
+                cs.append(par(c))
+        if fuel:
+            self.uses_fuel = True
+        if self.known[name][7]:
+            self.uses_cmp = True
+        return "%s %s" % (lean, " ".join((["fuel"] if fuel else []) + (["cmp"] if self.known[name][7] else []) + ["self_"] + cs)), ret, bound
+
+    def hoist(self, cond, env):
+        """`if self.m(..)` / `if !self.m(..)` where m is a &mut self method or has &mut parameters: the call is bound
+        first; returns (prelude statements, condition code)"""
+        neg = False
+        e = cond
+        while e[0] in ("not", "paren"):
+            if e[0] == "not":
+                neg = not neg
+            e = e[1]
+        if self.is_out_call(e):
+            act, rt, bound = self.out_call(e, env)
+            if rt != "bool":
+                raise Untranslatable("condition of type %s" % rt)
+            c = self.fresh("c")
+            pre = "let (%s) ← %s\n" % (", ".join([c] + [env[b][0] for b in bound]), act)
+            return pre, ("(!%s)" % c if neg else c)
+        if self.is_mut_call(e):
+            act, rt = self.mut_call(e, env)
+            if rt != "bool":
+                raise Untranslatable("condition of type %s" % rt)
+            c = self.fresh("c")
+            return "let (self_, %s) ← %s\n" % (c, act), ("(!%s)" % c if neg else c)
+        c, _ = self.expr(cond, env, "bool")
+        return "", c
 
     def is_mut_call(self, e):
         return isinstance(e, tuple) and e[0] == "mcall" and e[1] == ("var", "self") and e[2] in self.known and self.known[e[2]][5] == "mut"
@@ -781,6 +877,8 @@ class Emitter:
             v = e[1]
             if v in env:
                 return env[v][0], env[v][1]
+            if v == "None" and isinstance(want, tuple) and want[0] == "option":
+                return "none", want
             if re.match(r"[A-Z_][A-Z0-9_]*$", v):
                 return self.const_val(v)
             raise Untranslatable("unknown variable %s" % v)
@@ -838,6 +936,8 @@ class Emitter:
                 return "(← Rt.sliceChk %s %s %s %s)" % (b, par(lo), par(hi), self.site("slice")), "bytes"
             i, it = self.expr(ix, env, "usize")
             return "(← Rt.idx %s %s %s)" % (b, par(i), self.site("index")), "u8"
+        if k == "rawcond":
+            return e[1], "bool"
         if k == "natidx":
             a, at_ = self.expr(e[1], env)
             i, _ = self.expr(e[2], env, "usize")
@@ -848,6 +948,8 @@ class Emitter:
             return "(" + ", ".join(c for c, _ in items) + ")", ("tuple", tuple(t for _, t in items))
         if k == "array":
             items = [self.expr(x, env, "u8") for x in e[1]]
+            if not items:
+                return "([] : Bytes)", "bytes"
             return "[" + ", ".join("Rt.byteLit %s" % par(c) for c, _ in items) + "]", "bytes"
         if k == "arrayrep":
             et = self.peek_type(e[1], env)
@@ -926,6 +1028,8 @@ class Emitter:
                 return "(%s == %s)" % (a, b), "bool"
             if op == "!=":
                 return "(%s != %s)" % (a, b), "bool"
+            if t == "ordering":
+                return "(decide (Rt.ordNat %s %s Rt.ordNat %s))" % (a, {"<": "<", ">": ">", "<=": "≤", ">=": "≥"}[op], b), "bool"
             if t not in INTS:
                 raise Untranslatable("ordering comparison on %s" % t)
             return "(decide (%s %s %s))" % (a, {"<": "<", ">": ">", "<=": "≤", ">=": "≥"}[op], b), "bool"
@@ -964,6 +1068,10 @@ class Emitter:
 
     def call(self, path, args, env, want):
         p = "::".join(path)
+        if p == "Some" and len(args) == 1:
+            inner = want[1] if isinstance(want, tuple) and want[0] == "option" else None
+            c, t = self.expr(args[0], env, inner)
+            return "(some %s)" % par(c), ("option", t)
         if p in ("usize::decode_var", "u64::decode_var") and len(args) == 1:
             a, at_ = self.expr(args[0], env)
             if at_ != "bytes":
@@ -1002,7 +1110,9 @@ class Emitter:
         raise Untranslatable("call of %s" % p)
 
     def fn_call(self, name, args, env):
-        lean, ptypes, ret, fuel, fields, skind, cstruct = self.known[name]
+        lean, ptypes, ret, fuel, fields, skind, cstruct = self.known[name][:7]
+        if self.known[name][8]:
+            raise Untranslatable("call of %s (it has &mut parameters) inside an expression" % name)
         cs = []
         for a, (pn, pt) in zip(args, ptypes):
             c, t = self.expr(a, env, pt)
@@ -1017,6 +1127,9 @@ class Emitter:
             if cstruct != self.struct:
                 raise Untranslatable("call of a %s method outside %s" % (cstruct, cstruct))
             extra = ["self_"] + extra
+        if self.known[name][7]:
+            self.uses_cmp = True
+            extra = ["cmp"] + extra
         if fuel:
             self.uses_fuel = True
             extra = ["fuel"] + extra
@@ -1029,6 +1142,11 @@ class Emitter:
             if at_ != "bytes":
                 raise Untranslatable("decode_var of a non-byte slice")
             return "(← Rt.unwrapO (decodeVarint %s) %s)" % (par(a), self.site("unwrap")), ("tuple", ("usize", "usize"))
+        if self.struct and STRUCTS[self.struct].get("cmp_field") and recv == ("field", ("var", "self"), STRUCTS[self.struct]["cmp_field"]) and m == "cmp" and len(args) == 2:
+            a, _ = self.expr(args[0], env)
+            b, _ = self.expr(args[1], env)
+            self.uses_cmp = True
+            return "(cmp.cmp %s %s)" % (par(a), par(b)), "ordering"
         if self.struct and STRUCTS[self.struct].get("cmp_param") and recv == ("field", ("field", ("var", "self"), "opt"), "cmp") and m == "cmp" and len(args) == 2:
             a, _ = self.expr(args[0], env)
             b, _ = self.expr(args[1], env)
@@ -1186,10 +1304,10 @@ class Emitter:
             if e[0] == "if":
                 if tail and not rest and e[3] is not None and self.ret != "unit":
                     # `if` as the value of the function: both branches end in their own tail expression
-                    c, _ = self.expr(e[1], env, "bool")
+                    pre, c = self.hoist(e[1], env)
                     a = self.stmts(e[2], env, ctx)
                     b = self.stmts(e[3], env, ctx)
-                    return "if %s then do\n%s\nelse do\n%s" % (c, ind(a), ind(b))
+                    return pre + "if %s then do\n%s\nelse do\n%s" % (c, ind(a), ind(b))
                 return self.if_stmt(e, rest, env, ctx)
             if self.is_mut_call(e):
                 act, rt = self.mut_call(e, env)
@@ -1334,7 +1452,9 @@ class Emitter:
     def if_stmt(self, e, rest, env, ctx):
         _, cond, th, el = e
         el = el or []
-        c, _ = self.expr(cond, env, "bool")
+        pre, c = self.hoist(cond, env)
+        if pre:
+            return pre + self.if_stmt(("if", ("rawcond", c), th, el), rest, env, ctx)
         tl, elv = always_leaves(th), always_leaves(el)
         if tl or elv or not rest:
             # no join point needed: the code behind the `if` continues the branch(es) that fall through
@@ -1356,6 +1476,12 @@ class Emitter:
     def match_stmt(self, e, rest, env, ctx):
         """match <option> { Some(pat) => A, None => B } as a statement, followed by rest"""
         _, scrut, (names, tup), some_body, none_body = e
+        if self.is_mut_call(scrut):
+            act, t = self.mut_call(scrut, env)
+            m_ = self.fresh("m")
+            env = dict(env)
+            env[m_] = (m_, t)
+            return "let (self_, %s) ← %s\n" % (m_, act) + self.match_stmt(("matchopt", ("var", m_), (names, tup), some_body, none_body), rest, env, ctx)
         c, t = self.expr(scrut, env)
         if not (isinstance(t, tuple) and t[0] == "option"):
             raise Untranslatable("match on a value of type %s" % (t,))
@@ -1522,14 +1648,15 @@ def translate(src_dir):
     for tgt in TARGETS:
         fname, impl, rust, lean, fields = tgt[:5]
         struct = tgt[5] if len(tgt) > 5 else None
-        known = allknown.setdefault(fname, {})      # callees are looked up among the translated functions of the same file
+        # callees are looked up among the translated functions of the same file, methods among those of the same structure
+        known = allknown.setdefault("struct:" + struct if struct else fname, {})
         try:
             text = strip_tests(open(os.path.join(src_dir, fname)).read())
             consts = collect_consts(text)
             ftxt = find_fn(text, impl, rust)
             pr = P(tokenize(ftxt))
             name, params, ret, body = pr.function()
-            em = Emitter(rust, consts, fields, known, ret, struct, pr.selfkind)
+            em = Emitter(rust, consts, fields, known, ret, struct, pr.selfkind, pr.outs)
             env = {}
             if struct:
                 env["self"] = ("self_", "struct:" + struct)
@@ -1548,7 +1675,7 @@ def translate(src_dir):
             fuel = em.uses_fuel
             out.append("/-- %s::%s -/\ndef %s%s%s : Res %s := do\n%s\n" % (
                 fname, rust, lean, " (fuel : Nat)" if fuel else "", sig, em.full_ret_ty(), ind(code)))
-            known[rust] = (lean, params, ret, fuel, list(fields), pr.selfkind if struct else None, struct)
+            known[rust] = (lean, params, ret, fuel, list(fields), pr.selfkind if struct else None, struct, em.uses_cmp, list(pr.outs))
             if struct and pr.selfkind == "mut":
                 MUT_SELF_METHODS.add(rust)
             report.append((lean, "ok"))
